@@ -153,12 +153,24 @@ def bath_modes(chk, n):
             # change_only (without the initial thermal part), interaction_picture (without the free phases)
             dwo = rng.choice([1.0, 0.5, 2.0])
             ch_o = rng.random() < 0.5
-            tl, occ = quiet(tb.occupation, w0, dw=dwo, change_only=ch_o, progress_type="silent")
             g0, g1 = corr.spectral_density(w0) ** 0.5, corr.spectral_density(w1) ** 0.5
-            want = exact_occupation(np.array(tl), w0, g0 * dwo ** 0.5, T if not ch_o else 0.0)
-            bad = not np.allclose(occ, want, rtol=1e-4, atol=1e-6)
-            if bad:
-                info["first_bad"] = {"occupation": True, "dw": dwo, "change_only": ch_o}
+            bad = False
+
+            def ask_occupation():
+                tl_, occ_ = quiet(tb.occupation, w0, dw=dwo, change_only=ch_o, progress_type="silent")
+                want_ = exact_occupation(np.array(tl_), w0, g0 * dwo ** 0.5, T if not ch_o else 0.0)
+                if not np.allclose(occ_, want_, rtol=1e-4, atol=1e-6):
+                    info["first_bad"] = {"occupation": True, "dw": dwo, "change_only": ch_o}
+                    return tl_, True
+                return tl_, False
+            # the order of the questions put to the ONE object: occupation first (the whole table of system correlations is
+            # generated at once), or correlations first, at increasing times (the table grows from question to question)
+            occupation_first = it % 2 == 0
+            info["question_order"] = "occupation first" if occupation_first else "correlations at increasing times first"
+            if occupation_first:
+                tl, bad = ask_occupation()
+            else:
+                tl = np.array([k * dt for k in range(nst + 1)])
             dws = rng.choice([(1.0, 1.0), (0.5, 2.0), (2.0, 1.0)])
             ch_c, ip_c = rng.random() < 0.4, rng.random() < 0.4
             info["options"] = {"dw": dws, "change_only": ch_c, "interaction_picture": ip_c}
@@ -169,6 +181,8 @@ def bath_modes(chk, n):
             pairs = [(w0, g0, w0, g0), (w0, g0, w_other, g_other)]
             tpairs = [(tl[sel], tl[-1]), (tl[-1], tl[-1])] if it % 2 == 0 else [(tl[sel], tl[-1]), (tl[sel], tl[sel])]
             tpairs += [(tl[1], tl[-1]), (tl[1], tl[1])] if it % 3 == 0 else [(tl[1], tl[2])]      # regions of a single cell
+            if not occupation_first:
+                tpairs = sorted(tpairs, key=lambda p_: max(p_))
             for (wa, ga, wb, gb) in pairs:
                 for (ta, tb_) in tpairs:
                     for dagg in ((0, 0), (0, 1), (1, 0), (1, 1)):
@@ -187,6 +201,8 @@ def bath_modes(chk, n):
                         if not np.allclose(got, ex, rtol=1e-4, atol=1e-6):
                             bad = True
                             info["first_bad"] = {"freq": [wa, wb], "times": [float(ta), float(tb_)], "dagg": list(dagg), "got": complex(got), "exact": complex(ex)}
+            if not occupation_first:
+                bad = ask_occupation()[1] or bad
         except Exception as ex_:
             chk.fail("bath-modes-raise", f"TwoTimeBathCorrelations raises {ex_!r}", info)
             continue
